@@ -15,7 +15,7 @@
    (bleaves_spec), so the forest the inline model returns for a cell is the one `attach` puts under that cell. *)
 From Coq Require Import List NArith Arith Bool Lia Strings.String.
 From V Require Import Base.Bytes Base.Res Gen.Nodes Model.Ast Model.Strings Model.RefDef Model.Blocks Model.Inlines Model.Footnotes Model.Parse
-  Spec.Shape Spec.HtmlSpec Spec.Valid
+  Spec.Shape Spec.HtmlSpec Spec.Valid Spec.ParseValidSpec
   Proofs.BlocksProofs Proofs.InlinesProofs Proofs.FootnoteProofs Proofs.ValidProofs
   Proofs.ParserShapeBlocks Proofs.ParserShapeBlocksRead Proofs.ParserShapeTablesRead Proofs.ParserShapeInl Proofs.ParserShapeFn
   Proofs.ParserShapeAttach Proofs.ParserShapeCompose Proofs.ParseProofs Proofs.ParseValidInl Proofs.ParseValidTree.
@@ -24,11 +24,6 @@ Local Open Scope string_scope.
 Local Open Scope list_scope.
 
 (* ================================================================== 0. the premise *)
-Fixpoint bcells_ok (t : bnode) : bool :=
-  match t with
-  | BNode i ch => (if is_cell_v (bi_val i) then no_nl (bi_content i) else true) && forallb bcells_ok ch
-  end.
-
 Lemma drop_while_In (f : byte -> bool) : forall l x, In x (drop_while f l) -> In x l.
 Proof.
   induction l as [|y r IH]; intros x H; cbn [drop_while] in H; [exact H|].
@@ -275,5 +270,25 @@ Proof.
   destruct (parse_blocks_NI _ _ _ B) as [_ A]. eapply ball_no_cells; [|exact A]. exact T.
 Qed.
 
+(* what `ivt nb` says in the validator's terms *)
+Lemma ivt_meaning nb n : ivt nb n = true ->
+  valid n = true /\ child_allowed Paragraph n = true /\ (forall l s, child_allowed (Heading l s) n = true) /\
+  (nb = true -> child_allowed TableCell n = true).
+Proof.
+  intro H. split; [eapply ivt_valid; exact H|]. split; [eapply ivt_allowed_under; [exact H|exact I]|].
+  split; [intros l s; eapply ivt_allowed_under; [exact H|exact I]|]. intro T. eapply ivt_allowed_under; [exact H|exact T].
+Qed.
+
 Print Assumptions parse_valid_cells.
 Print Assumptions parse_valid_no_table.
+
+(* the report the check evaluates: whenever it answers, the premise implies the conclusion *)
+Theorem parse_valid_report_sound o u x c v :
+  parse_valid_report o u x = Some (c, v) -> c = true -> v = true.
+Proof.
+  unfold parse_valid_report. intros H C.
+  destruct (parse_blocks (bopts_of o u) x) as [r| |] eqn:B; try discriminate H.
+  destruct (parse_document_model o u x) as [t| |] eqn:P; try discriminate H.
+  inversion H; subst. destruct (parse_valid_cells _ _ _ _ P) as (r' & B' & V). rewrite B in B'. inversion B'; subst.
+  now apply V.
+Qed.
